@@ -13,6 +13,15 @@ Proof.
   apply number_only_for_literals in P. unfold u_integer. rewrite P. reflexivity.
 Qed.
 
+(* a negative literal, which the parser reads as the negation of a literal, is printed as its value *)
+Lemma print_bound_negated_literal w e v :
+  etype e <> Type_Integer -> eneg e = Some v -> negated_literal_as_number = true -> print_bound w e = PNumber (- v)%Z.
+Proof.
+  intros T E N. unfold print_bound. destruct (pick (etype e) bound_branches) eqn:P.
+  - apply number_only_for_literals in P. contradiction.
+  - rewrite N, E. reflexivity.
+Qed.
+
 (* and for a literal it is the literal's value *)
 Lemma print_bound_literal w e : etype e = Type_Integer -> print_bound w e = PNumber (evalue e).
 Proof. intros E. unfold print_bound, u_integer. rewrite E. vm_compute. reflexivity. Qed.
